@@ -571,9 +571,34 @@ def check(tier, seed, only=None):
     if not only or only.get("enums"):
         recs += enum_records(cur, base, ref)
     findings, tr_stats = validate(recs, workdir, "all")
+    # type URLs spelled as string literals in the contracts (the token-factory glue hard-codes the URLs of three binding
+    # messages): each must be "/" + the fully-qualified name of a message of the bindings (or of the reference binding)
+    if not only or only.get("lits"):
+        lrecs, lfind = literal_urls(cur, ref, len(recs))
+        recs += lrecs
+        findings += lfind
     mc_stats = model_check_finish(mc) if mc else {"states": 0, "transitions": 0, "wall_s": 0}
     return dict(cur=cur, shared=shared, recs=recs, findings=findings, vectors=vectors, gen=gen_stats, trace=tr_stats, mc=mc_stats,
                 build_wall=build_wall, n_random=n_random, wall=time.time() - t_start, obs_file=obs_file, oracle=oracle, base=base)
+
+
+def literal_urls(cur, ref, n0):
+    import glob, re
+    known = set(cur["messages"]) | set(ref["messages"])
+    recs, finds = [], []
+    for path in sorted(glob.glob(os.path.join(REPO, "contracts", "*", "src", "**", "*.rs"), recursive=True)):
+        if os.sep + "tests" + os.sep in path:
+            continue
+        txt = open(path, encoding="utf-8").read()
+        for m in re.finditer(r'type_url\s*:\s*"(/[^"]*)"', txt):
+            url = m.group(1)
+            r = {"t": "lit", "i": n0 + len(recs) + 1, "url": url, "file": os.path.relpath(path, REPO), "line": txt.count("\n", 0, m.start()) + 1,
+                 "known": url[1:] in known}
+            recs.append(r)
+            if not r["known"]:
+                finds.append({"i": r["i"], "kind": "url-literal", "id": url, "file": r["file"], "line": r["line"],
+                              "want": "\"/\" + the fully-qualified name of a message of the bindings"})
+    return recs, finds
 
 
 def enum_records(cur, base, ref):
@@ -698,6 +723,8 @@ def main():
                     only["urls"].add(r["rust"])
                 elif r["t"] == "enum":
                     only["enums"] = True
+                elif r["t"] == "lit":
+                    only["lits"] = True
             res = check("quick", seed, only=only)
             real, kn, path = report(res, "quick", seed, replay_tag="replayed")
             if real:
